@@ -111,6 +111,15 @@ def sched_dict(d: Any, site: str) -> Any:
     return r
 
 
+def pick(candidates: Any, site: str, default: Any) -> Any:
+    """The element the code should take next: the scheduler's choice if one is installed
+    (used to drive the dataflow worklists through arbitrary visiting orders), else the
+    code's own deterministic `default`."""
+    if scheduler is None:
+        return default
+    return scheduler(site, list(candidates))
+
+
 def trace(site: str, **fields: Any) -> None:
     if tracer is not None:
         tracer(site, **fields)
